@@ -252,6 +252,13 @@ def gen(rng, kind, tier):
         case["blemish"] = int(rng.integers(1, 1 << 30))
     if case is not None and rng.random() < 0.04:
         case["via_workers"] = True
+    if case is not None and case["image"]["type"] == "other" and rng.random() < 0.15:
+        # the image as a camera delivers it: integer grey values (the two intensity levels are mapped to grey
+        # values g0 < g1 and the pixels rounded), or single precision
+        dt = str(rng.choice(["uint8", "uint8", "uint16", "int16", "int32", "float32"]))
+        top = {"uint8": 255, "uint16": 65535, "int16": 32767, "int32": 100000, "float32": 255}[dt]
+        g0 = int(rng.integers(5, top // 3))
+        case["grey"] = {"dtype": dt, "g0": g0, "g1": int(rng.integers(g0 + top // 3, top - 4))}
     if case is not None and rng.random() < 0.1:
         # an earlier refinement of the same candidate with other options (its outcome is not judged):
         # earlier calls must not influence later ones
@@ -299,7 +306,24 @@ def run(case, rec):
     fam = spec["family"]
     dim = geom.space_dim(spec)
     image = build_image(grid, spec, case)
-    if case.get("blemish"):
+    grey = case.get("grey")
+    if grey:
+        lo, hi = case["image"]["levels"]
+        g0, g1 = grey["g0"], grey["g1"]
+        dt = np.dtype(grey["dtype"])
+        image = g0 + (image - lo) * ((g1 - g0) / (hi - lo))
+        if dt.kind in "iu":
+            info = np.iinfo(dt)
+            image = np.clip(np.round(image), info.min, info.max)
+        else:
+            image = image.astype(dt).astype(float)
+        # supplied levels are given as grey values too (plain python ints, as one would type them)
+        case = dict(case)
+        case["opts"] = {k: ((g0 if v == lo else g1 if v == hi else v) if k in ("vmin", "vmax") and v is not None else v)
+                        for k, v in case["opts"].items()}
+        case["image"] = dict(case["image"], levels=[g0, g1])
+        rec.count(f"image_dtype:{dt.name}")
+    if case.get("blemish") and not (grey and np.dtype(grey["dtype"]).kind in "iu"):
         # a few non-finite pixels far away from the candidate (e.g. masked-out sensor pixels): they lie
         # outside the fit region, so the fit is unaffected - and the image must still not be modified
         probe = make_droplet(case["cand"])
@@ -313,7 +337,7 @@ def run(case, rec):
             for k in r_b.choice(len(far), size=min(3, len(far)), replace=False):
                 image[tuple(far[k])] = [np.nan, np.inf, -np.inf][int(r_b.integers(3))]
             rec.count("images_with_non_finite_pixels_outside_the_fit_region")
-    field = ScalarField(grid, image.copy())
+    field = ScalarField(grid, image.copy()) if not grey else ScalarField(grid, image.astype(np.dtype(grey["dtype"])), dtype=np.dtype(grey["dtype"]))
     dig0 = hashlib.blake2b(field.data.tobytes(), digest_size=16).hexdigest()
     cand = common.via(make_droplet(case["cand"]), case.get("route"))  # provenance must not matter
     rec.count(f"route:{case.get('route')}")
